@@ -6,14 +6,15 @@ EXTENDS Integers, Sequences, Bitwise
 Byte == 0..255
 IsBytes(s) == \A i \in 1..Len(s) : s[i] \in Byte
 
-Zeros(n)  == [i \in 1..n |-> 0]
-Rep(b, n) == [i \in 1..n |-> b]
+Zeros(n)  == SubSeq([i \in 1..n |-> 0], 1, n)
+Rep(b, n) == SubSeq([i \in 1..n |-> b], 1, n)
 Take(s, n) == SubSeq(s, 1, n)                \* first n bytes
 Drop(s, n) == SubSeq(s, n + 1, Len(s))       \* all but the first n bytes
 Slice(s, from, n) == SubSeq(s, from + 1, from + n)   \* n bytes at 0-based offset from
 LastN(s, n) == SubSeq(s, Len(s) - n + 1, Len(s))
 
-BXor(a, b) == [i \in 1..Len(a) |-> a[i] ^^ b[i]]      \* Len(b) >= Len(a)
+(* results are normalised to concrete tuples (SubSeq): TLC function constructors are lazy and un-memoised *)
+BXor(a, b) == SubSeq([i \in 1..Len(a) |-> a[i] ^^ b[i]], 1, Len(a))      \* Len(b) >= Len(a)
 BXorInto(a, b) == [i \in 1..Len(a) |-> IF i <= Len(b) THEN a[i] ^^ b[i] ELSE a[i]]
 
 AllZero(s) == \A i \in 1..Len(s) : s[i] = 0
